@@ -3,6 +3,7 @@ CONSTANTS
   NLanes = 2
   LineSize = 8
   Deviations <- NoDev
+  Window = 2
   LastIsLast = TRUE
   MemSize = 24
   MCOps <- OpsAll
